@@ -39,6 +39,20 @@ CHECKS = {
         'validated by the injection runs; the numerical state after a cpl restore is not modelled; backtracking into the domain is '
         'observed on domain-restricted F, not proved.',
    technique='Lean 4 proof (decide over a source-generated site table + induction over failure sequences) with fault-injection correspondence'),
+ 'C05': dict(
+   category='proof',
+   text='Lean 4 theorems, over any ordered field, vector spaces and cone pair with <s,z> >= 0 (every cone structure and size), that fix the '
+        'true class of a planted instance from its witnesses: weak duality (LP and QP with PSD P), a primal feasible point excludes a Farkas '
+        'certificate, a dual feasible point excludes an improving ray, a Farkas certificate excludes every feasible point (so optimal is never '
+        'correct), a ray through a feasible point makes the objective unbounded and excludes dual feasibility. The harness plants instances, '
+        'has every witness re-verified by the Lean rational checker, runs conelp, coneqp, lp/socp/sdp/qp wrappers and cpl (dense and sparse, '
+        'default KKT solver) and requires the planted class, agreement of the objectives across paths and the planted weak-duality bounds; an '
+        'unknown on a solvable instance is accepted only with recomputed residuals and gap <= 1e-4.',
+   design_ref='DESIGN.md 5 C05',
+   note='Trusted: Lean kernel, planted generator and the rational checker Model/CertCheck.lean, numeric comparison tolerances. Termination '
+        'within the iteration budget is observed, not proved. Known findings: exceptions escaping from coneqp/cpl on infeasible or unbounded '
+        'inputs, the chol2 rank-deficient-G defect (shared with C06), cpl stalling on some plain LPs.',
+   technique='Lean 4 proof (class of a planted instance from its witnesses) + planted-instance runs judged by a Lean rational checker'),
  'C06': dict(
    category='proof',
    text='(1) The kktsolver-name dispatch of conelp/coneqp/cpl/cp and the pass-through of the wrappers are regenerated from the source '
